@@ -291,6 +291,25 @@ func c06Loopback(c *Ctx) {
 				}
 				return append(out, farm.Action{Data: cur.reply})
 			})
+			prevCase := ""
+			// the farm's log is not ordered with the cases: a request of an earlier call (a TCP request is read by the farm when its
+			// goroutine gets to it) can be logged after the next case has begun. Arrivals are therefore attributed by content: the
+			// reference encodings of the last requests this worker made are remembered, and an arrival that is one of those is a late
+			// log entry, not a request of the judged call.
+			recent := map[string]int{}
+			recentQ := []string{}
+			remember := func(b []byte) {
+				k := string(b)
+				recent[k]++
+				recentQ = append(recentQ, k)
+				if len(recentQ) > 64 {
+					old := recentQ[0]
+					recentQ = recentQ[1:]
+					if recent[old]--; recent[old] <= 0 {
+						delete(recent, old)
+					}
+				}
+			}
 			for i := 0; i < N; i++ {
 				caseNo := int64(w*N + i)
 				serial := uint32(0x40000000) + uint32(c.Batch)<<24 + uint32(w)<<20 + uint32(i) + 1
@@ -361,10 +380,11 @@ func c06Loopback(c *Ctx) {
 					histCfg.Devices = nil // earlier calls go to the judged controller only... which refuses: none are made (their requests could not be counted)
 				}
 				histIPs := [][4]byte{{127, 0, 0, 2}, {127, 0, 0, 9}, {10, 9, 8, 7}}
-				if dv.state == "refusing" {
-					histIPs = nil
+				if dv.state == "refusing" || fixedPort != 0 {
+					histIPs = nil // (two TCP calls in a row from one fixed port to one endpoint: the kernel refuses the second - TIME_WAIT)
 				}
 				hist := c06History(r, u, histCfg, serial, histIPs, i%40 == 7 && dv.state != "refusing", func(hop *rm.Op, hs uint32, ha rm.Vals) {
+					remember(hop.Request(hs, ha))
 					cur.Lock()
 					cur.op, cur.serial, cur.args, cur.noise, cur.delay = hop, hs, ha, nil, 0
 					cur.reply = validReply(r, hop, hs+map[bool]uint32{true: 77, false: 0}[hop.Discovery], ha)
@@ -376,6 +396,10 @@ func c06Loopback(c *Ctx) {
 					// a TCP request of a call that does not wait for a reply can be read by the farm well after the call returned
 					for q := 0; q < 500 && total() < histBefore+int64(len(hist)); q++ {
 						time.Sleep(2 * time.Millisecond)
+					}
+					if total() < histBefore+int64(len(hist)) {
+						c.Res.Count("loopback:diag:history-arrivals-missing-after-1s", 1)
+						c.Res.Note("diag-hist", fmt.Sprintf("%v state=%s proto=%s cfg=%+v", hist, dv.state, dv.proto, cfg))
 					}
 					time.Sleep(3 * time.Millisecond)
 					f.fm.WaitIdle(2 * time.Second)
@@ -439,8 +463,11 @@ func c06Loopback(c *Ctx) {
 				if dv.state == "refusing" && !op.Discovery {
 					waitArrival = 10 // nothing is expected to arrive anywhere
 				}
-				for k := 0; k < waitArrival && total() == recvBefore; k++ {
+				for k := 0; k < waitArrival && total() < recvBefore+int64(wantN); k++ { // every call made has returned: its request is on its way to the farm's log
 					time.Sleep(2 * time.Millisecond)
+				}
+				if total() < recvBefore+int64(wantN) && waitArrival > 10 {
+					c.Res.Count("loopback:diag:arrival-missing-after-1s", 1)
 				}
 				time.Sleep(3 * time.Millisecond)
 				f.fm.WaitIdle(2 * time.Second)
@@ -467,6 +494,10 @@ func c06Loopback(c *Ctx) {
 					desc := []string{}
 					for _, e := range events {
 						if e.Kind == "recv" {
+							if string(e.Data) != string(op.Request(serial, a)) && recent[string(e.Data)] > 0 {
+								c.Res.Count("loopback:late-log-entries-of-earlier-calls(attributed by content)", 1)
+								continue
+							}
 							n++
 							desc = append(desc, fmt.Sprintf("%s endpoint %s from %s (%d bytes)", e.Proto, f.fm.Endpoints[e.Endpoint].Addr, e.Src, len(e.Data)))
 						}
@@ -486,18 +517,28 @@ func c06Loopback(c *Ctx) {
 				c.Res.DistinctKey("loopback", op.Name, dv.state, dv.proto, dv.newd, bindKind)
 				c.Res.Count("loopback:route:"+wantProto+":"+map[bool]string{true: "broadcast-endpoint", false: "controller"}[wantEP == f.bcast], 1)
 
-				recvs := []farm.Event{}
-				for _, e := range events {
-					if e.Kind == "recv" {
-						recvs = append(recvs, e)
+				remember(wantReq)
+				collect := func(evs []farm.Event) []farm.Event {
+					out := []farm.Event{}
+					for _, e := range evs {
+						if e.Kind == "recv" {
+							if string(e.Data) != string(wantReq) && recent[string(e.Data)] > 0 {
+								c.Res.Count("loopback:late-log-entries-of-earlier-calls(attributed by content)", 1)
+								continue
+							}
+							out = append(out, e)
+						}
 					}
+					return out
 				}
+				recvs := collect(events)
 				desc := []string{}
 				for _, e := range recvs {
 					desc = append(desc, fmt.Sprintf("%s endpoint %s from %s (%d bytes)", e.Proto, f.fm.Endpoints[e.Endpoint].Addr, e.Src, len(e.Data)))
 				}
 				wv := map[string]any{"layer": "loopback", "op": op.Name, "config": fmt.Sprintf("%+v", cfg), "controller": dv.state, "protocol": dv.proto, "bind": cfg.Bind,
-					"expected": fmt.Sprintf("%s %s", wantProto, wantEP.Addr), "arrivals": desc, "err": out.Err, "elapsed_ms": elapsed.Milliseconds(), "earlier_calls_on_this_client": hist, "stray_datagrams_before_reply": nNoise, "reply": replyClass}
+					"expected": fmt.Sprintf("%s %s", wantProto, wantEP.Addr), "arrivals": desc, "err": out.Err, "elapsed_ms": elapsed.Milliseconds(), "earlier_calls_on_this_client": hist, "stray_datagrams_before_reply": nNoise, "reply": replyClass, "twin": twin, "previous_case": prevCase}
+				prevCase = fmt.Sprintf("%s state=%s proto=%s bind=%s reply=%s twin=%v hist=%v err=%q arrivals=%v", op.Name, dv.state, dv.proto, cfg.Bind, replyClass, twin, hist, out.Err, desc)
 				key := fmt.Sprintf("C06:loopback:%s:%s", dv.state, wantProto)
 				if len(recvs) == 0 && (strings.Contains(out.Err, "address already in use") || strings.Contains(out.Err, "cannot assign requested address")) {
 					c.Res.Inconcl("bind collision on a 'fixed' port: " + out.Err)
@@ -511,12 +552,7 @@ func c06Loopback(c *Ctx) {
 				}
 				if twin && len(recvs) == 1 {
 					time.Sleep(20 * time.Millisecond) // the second goroutine's request may be logged a little later
-					recvs = recvs[:0]
-					for _, e := range f.fm.Events() {
-						if e.Kind == "recv" {
-							recvs = append(recvs, e)
-						}
-					}
+					recvs = collect(f.fm.Events())
 				}
 				if len(recvs) != wantN {
 					c.Res.Violate(key+":count", fmt.Sprintf("%s (controller %s, protocol %q, bind %s): %d requests arrived at the farm, expected exactly %d (calls made: %d) at %s %s: %v", op.Name, dv.state, dv.proto, cfg.Bind, len(recvs), wantN, wantN, wantProto, wantEP.Addr, desc), wv, caseNo)
